@@ -49,9 +49,44 @@ CONFIGS = {
 }
 
 
+DEEP = {"quick": [(6, 2), (7, 2), (8, 2), (9, 2)], "thorough": [(6, 3), (7, 3), (8, 2), (9, 2), (10, 2)]}
+
+
 def bounds(tier):
     return {"capacity_x_keys": CONFIGS[tier], "policies": ["min", "max"],
-            "depth": "fixpoint (finite DAG)"}
+            "depth": "fixpoint (finite DAG)",
+            "from_every_valid_heap": ["all %d heap arrangements of %d distinct keys (capacity %d), every "
+                                      "operation sequence of length <= %d" % (len(valid_heaps(n)), n, n + 1, d)
+                                      for n, d in DEEP[tier]]}
+
+
+_VH = {}
+
+
+def valid_heaps(n):
+    """All arrays (permutations of ranks 0..n-1) with a[parent] < a[child]: every one is
+    reachable by inserting its keys in level order (no sift happens)."""
+    if n in _VH:
+        return _VH[n]
+    out = []
+    a = [None] * n
+    used = [False] * n
+
+    def rec(i):
+        if i == n:
+            out.append(tuple(a))
+            return
+        par = a[(i - 1) // 2] if i else -1
+        for v in range(par + 1, n):
+            if not used[v]:
+                used[v] = True
+                a[i] = v
+                rec(i + 1)
+                used[v] = False
+
+    rec(0)
+    _VH[n] = out
+    return out
 
 
 def plan(tier, seed):
@@ -61,6 +96,14 @@ def plan(tier, seed):
             shards.append((policy, cap, m))
     # biggest first for load balance
     shards.sort(key=lambda s: -(s[1] * 10 + s[2]))
+    # start from non-initial states too: every valid heap arrangement of n distinct keys,
+    # built through real inserts, then every operation sequence up to a depth
+    for n, depth in DEEP[tier]:
+        total = len(valid_heaps(n))
+        step = max(1, total // 24)
+        for policy in ("min", "max"):
+            for a in range(0, total, step):
+                shards.append(("deep", policy, n, depth, a, min(total, a + step)))
     return shards
 
 
@@ -278,10 +321,76 @@ def expand(Heap, res, seen, frontier, policy, size, keys, st, ref, path, n_q):
     return False
 
 
+def run_deep(shard, seed):
+    from opfython.core.heap import Heap
+    _, policy, n, depth, a, b = shard
+    size = n + 1
+    scale = 1.0 if not seed else [1.0, 0.5, 3.0, 7.25][seed % 4]
+    grid = tuple(scale * v for v in range(0, 2 * n + 2, 2))      # values updates/inserts may use
+    res = Result()
+    for arr in valid_heaps(n)[a:b]:
+        # real inserts in level order; keys are the odd numbers (mirrored for the max policy)
+        ranks = arr if policy == "min" else tuple(n - 1 - r for r in arr)
+        init = [("insert", i, scale * (2 * ranks[i] + 1)) for i in range(n)]
+        h = Heap(size, policy)
+        ref = ((WHITE,) * size, (None,) * size)
+        prob = None
+        for op in init:
+            ref, prob = step(h, policy, size, ref, op)
+            res.transitions += 1
+            if prob:
+                break
+        if prob:
+            res.violation("step", {"policy": policy, "size": size, "keys": grid, "ops": init},
+                          prob, "reference priority queue", prob, fingerprint(prob))
+            if res.full:
+                break
+            continue
+        st0 = snap(h)
+        seen = {(st0, ref)}
+        frontier = collections.deque([(st0, ref, tuple(init))])
+        while frontier:
+            st, rf, path = frontier.popleft()
+            res.states += 1
+            res.nontrivial += 1
+            if len(path) - n >= depth:
+                # leaf: only the state invariant (drain) is evaluated
+                try:
+                    prob = drain_problem(Heap, size, policy, st, rf)
+                except Exception as ex:
+                    prob = "drain raised %r" % (ex,)
+                if prob:
+                    res.violation("drain", {"policy": policy, "size": size, "keys": grid,
+                                            "ops": list(path), "then": "drain"},
+                                  prob, "each queued element once, in key order", prob, fingerprint(prob))
+                    if res.full:
+                        break
+                continue
+            try:
+                with horizon(20.0):
+                    stop = expand(Heap, res, seen, frontier, policy, size, grid, st, rf, path,
+                                  sum(1 for x in rf[0] if x == GRAY))
+            except Horizon as hz:
+                res.violation("horizon", {"policy": policy, "size": size, "keys": grid, "ops": list(path)},
+                              str(hz), "termination", str(hz), "Heap: no termination")
+                stop = res.full
+            if stop:
+                break
+        if res.full:
+            break
+    res.evaluations = res.transitions
+    res.traces = res.transitions
+    res.sample({"policy": policy, "size": size, "start_heap_keys": list(valid_heaps(n)[a]),
+                "then": "every operation sequence of length <= %d" % depth}, 1)
+    return res
+
+
 def run(shard, seed):
     from opfython.core.heap import Heap
     import opfython.utils.constants as c
 
+    if shard[0] == "deep":
+        return run_deep(shard, seed)
     policy, size, m = shard
     keys = key_table(seed, m)
     res = Result()
